@@ -68,6 +68,8 @@ class Flow:
         self.all_loops: dict = {}
         self.assigns: dict = {}
         self.alias_of: dict = {}
+        self._mutated: set = set()
+        self._loop_stored: list = []
         self.consts = consts or {}
         self.acc = self._find_acc(func)
         a = func.args
@@ -105,6 +107,8 @@ class Flow:
 
     # ---- helpers --------------------------------------------------------
     def fact(self, kind, target, index, op, value, node, **extra):
+        if kind in ("store", "augstore", "append", "remove", "mutate") and isinstance(target, str):
+            self._mutated.add(target)
         f = Fact(kind, target, index, op, value, tuple(self.loops), tuple(self.guards),
                  getattr(node, "lineno", 0), next(self._seq), node, extra)
         self.facts.append(f)
@@ -114,7 +118,9 @@ class Flow:
         if name in self.env:
             v = self.env[name]
             if name in self.acc and v is not None and v[0] != "param":
-                return ("acc", name)
+                # precise until the first element store / in-loop mutation can have happened
+                if name in self._mutated or any(name in st for st in self._loop_stored):
+                    return ("acc", name)
             return v
         if name in self.consts:
             return self.consts[name]
@@ -407,6 +413,20 @@ class Flow:
             return  # docstring
         self.fact("expr", "", None, None, self.ev(n), s)
 
+    @staticmethod
+    def _stored_in(body) -> set:
+        out = set()
+        for node in ast.walk(ast.Module(body=body, type_ignores=[])):
+            if isinstance(node, (ast.Assign, ast.AugAssign)):
+                tg = node.targets if isinstance(node, ast.Assign) else [node.target]
+                for t in tg:
+                    if isinstance(t, ast.Subscript) and isinstance(t.value, ast.Name):
+                        out.add(t.value.id)
+            elif isinstance(node, ast.Expr) and isinstance(node.value, ast.Call) and isinstance(node.value.func, ast.Attribute) \
+                    and isinstance(node.value.func.value, ast.Name) and node.value.func.attr in ("append", "extend", "add", "update", "insert", "pop", "remove"):
+                out.add(node.value.func.value.id)
+        return out
+
     def _carry(self, body, lp):
         """Names assigned in a loop body and defined before it become loop-carried."""
         assigned = set()
@@ -429,7 +449,9 @@ class Flow:
                 self.env[nm] = ("carried", nm, lp.id)
         self.bind_iter(s.target, it, lp)
         self.loops.append(lp)
+        self._loop_stored.append(self._stored_in(s.body))
         self.block(s.body)
+        self._loop_stored.pop()
         self.loops.pop()
         for nm in assigned:
             if nm not in self.acc and nm in self.env:
@@ -446,7 +468,9 @@ class Flow:
             if nm in pre and nm not in self.acc:
                 self.env[nm] = ("carried", nm, lp.id)
         self.loops.append(lp)
+        self._loop_stored.append(self._stored_in(s.body))
         self.block(s.body)
+        self._loop_stored.pop()
         self.loops.pop()
         for nm in assigned:
             if nm not in self.acc and nm in self.env:
